@@ -1,0 +1,37 @@
+//go:build verif
+
+package heapq
+
+import "sync/atomic"
+
+// Verification hooks, compiled only with the "verif" build tag. They let an
+// external monitor observe which parent index pushUp compares against, and
+// re-run a history with the textbook parent index (i-1)/2 substituted.
+
+var (
+	// VerifFixParent, when set, makes pushUp use (i-1)/2 as the parent of i.
+	VerifFixParent atomic.Bool
+
+	// VerifOddParent counts calls in which pushUp computed a parent index
+	// that is neither i/2 nor (i-1)/2.
+	VerifOddParent atomic.Int64
+
+	// VerifEvenParent counts calls for an even index i >= 2, where i/2 and
+	// (i-1)/2 differ; VerifParentCalls counts all calls.
+	VerifEvenParent  atomic.Int64
+	VerifParentCalls atomic.Int64
+)
+
+func verifParent(i, par int) int {
+	VerifParentCalls.Add(1)
+	if par != i/2 && par != (i-1)/2 {
+		VerifOddParent.Add(1)
+	}
+	if i >= 2 && i%2 == 0 {
+		VerifEvenParent.Add(1)
+	}
+	if VerifFixParent.Load() {
+		return (i - 1) / 2
+	}
+	return par
+}
